@@ -208,7 +208,7 @@ def build(template_path, out_path, canary=False, repo=None, mutate=None):
                             rng, _, new = arg.partition(" ==> ")
                             a, _, b = rng.partition(" ... ")
                             cur = {"op": "replace_range", "start": a, "stop": b, "new": new, "text": ""}
-                        elif op in ("rewrite", "rewrite_all"):
+                        elif op in ("rewrite", "rewrite_all", "rewrite_opt"):
                             if arg.endswith(" ==>"):
                                 arg += " "
                             old, _, new = arg.partition(" ==> ")
